@@ -25,7 +25,9 @@ OUTS = [None, dict(dtype='uint16', nodata=65535), None, dict(dtype='int16', noda
 def encodings(dtype):
     if dtype == 'float32':
         return [('nan', None), (-9999.0, None), ('mask', 0.0), ('mask', 3.4e38), ('mask', -1e30), ('mask', float('nan')),
-                ('mask', 'random'), (3.0e38, None)]
+                ('mask', 'random'), (3.0e38, None),
+                # float64 files whose nodata value is no float32 number (incl. the float64 minimum, a common default)
+                ('f64:0.1', None), ('f64:-1e30', None), ('f64:-1.7976931348623157e308', None)]
     return [(0, None), ('mask', 0), ('mask', 255), ('mask', 'random'), ('alpha', 0), ('alpha', 255), ('alpha', 'random')]
 
 
@@ -38,7 +40,11 @@ def write_encoded(path, grid, arr, valid, dtype, enc, hidden, rng):
         hv = None
     else:
         hv = np.full((grid.h, grid.w), hidden, float)
-    if enc == 'nan':
+    if isinstance(enc, str) and enc.startswith('f64:'):
+        nd = float(enc[4:])
+        a[:, ~valid] = nd
+        rasters.write_tif(path, grid, a, dtype='float64', nodata=nd)
+    elif enc == 'nan':
         a[:, ~valid] = np.nan
         rasters.write_tif(path, grid, a, dtype=dtype, nodata=float('nan'))
     elif enc == 'mask':
